@@ -1,11 +1,12 @@
-(* Properties_C12_stop.v — statements only.  `munged --stop` and the requests accepted before it.
-   A request holds a worker for at most one receive and one send, each bounded by the per-message I/O limit
+(* Properties_C12_stop.v — statements only.  `munged --stop` and a request IN PROGRESS at the stop.
+   One request holds a worker for at most one receive and one send, each bounded by the per-message I/O limit
    MUNGE_SOCKET_TIMEOUT_MSECS (Properties_FD.v: every timed read/write returns by its absolute deadline plus the poll
-   rounding); the acceptor stops accepting at the SIGTERM (Properties_C12_job.v: C12_job_stop) and work_fini(w,1) cancels
-   nobody before everything accepted is done (Properties_C12.v).  So every request accepted before the stop has its reply
-   written within two I/O limits of the SIGTERM, and `munged --stop` must not escalate to SIGKILL before that:
-   the wait after SIGTERM (MUNGE_SIGNAL_WAIT_MSECS, conf.c _conf_process_stop) has to exceed two I/O limits plus the
-   polling granularity.  The constants are regenerated from munge_defs.h on every run (gen/GenStop.v). *)
+   rounding).  `munged --stop` (conf.c _conf_process_stop) waits MUNGE_SIGNAL_WAIT_MSECS after SIGTERM and then sends
+   SIGKILL; for the request that is in progress when the stop arrives to be completed, that wait has to exceed two I/O
+   limits plus the polling granularity.  This is a NECESSARY condition only: requests queued behind others wait for the
+   workers ahead of them, so the drain is unbounded in the queue length while the wait is fixed — that gap is the open
+   known finding F-C12-stop-kill (replayed in the thorough tier of C12); SIGTERM/SIGINT themselves drain completely
+   (Properties_C12.v, Properties_C12_job.v).  The constants are regenerated from munge_defs.h on every run (gen/GenStop.v). *)
 From Coq Require Import NArith.
 From MV.gen Require Import GenStop.
 Local Open Scope N_scope.
